@@ -92,6 +92,9 @@ func matrixRes(m [][]float64, tips []*tree.Node, conv func(float64) int64) map[s
 
 func caseC14(r *rand.Rand, cw *CalcWriter, label string, maxT int) {
 	gp := calcGen(maxT)
+	if r.Intn(3) == 0 {
+		gp.PNegLen = 0.15
+	}
 	opt := ProjOpt{Rank: true}
 	metrics := []int{tree.DISTANCE_METRIC_BRLEN, tree.DISTANCE_METRIC_BOOTS, tree.DISTANCE_METRIC_NONE}
 	switch r.Intn(3) {
